@@ -20,7 +20,30 @@ fn split_sci(s: &str) -> (Vec<u8>, Vec<u8>, i32) {
     (int, frac, exp)
 }
 
-pub const RENDERINGS: [&str; 3] = ["shortest", "fixed-sig-digits(9/17)", "exact-expansion"];
+pub const RENDERINGS: [&str; 5] = ["shortest", "fixed-sig-digits(9/17)", "exact-expansion", "shortest-positional", "fixed-sig-digits-positional"];
+
+/// The same decimal written positionally, the way `{}` / Display prints a float: all integer digits including
+/// the trailing zeros ("13085272010142930000000000000000000000"), or "0.000ddd" as an empty integer part and a
+/// fraction with leading zeros; exponent 0.
+fn positional((int, frac, exp): (Vec<u8>, Vec<u8>, i32)) -> (Vec<u8>, Vec<u8>, i32) {
+    let mut d = int.clone();
+    d.extend_from_slice(&frac);
+    if d.is_empty() {
+        return (vec![], vec![], 0);
+    }
+    let point = int.len() as i64 + exp as i64;
+    let len = d.len() as i64;
+    if point >= len {
+        d.extend(std::iter::repeat(b'0').take((point - len) as usize));
+        (d, vec![], 0)
+    } else if point <= 0 {
+        let mut f = vec![b'0'; (-point) as usize];
+        f.extend_from_slice(&d);
+        (vec![], f, 0)
+    } else {
+        (d[..point as usize].to_vec(), d[point as usize..].to_vec(), 0)
+    }
+}
 
 pub fn render(fmt: Fmt, bits: u64, which: usize) -> (Vec<u8>, Vec<u8>, i32) {
     match which {
@@ -32,6 +55,8 @@ pub fn render(fmt: Fmt, bits: u64, which: usize) -> (Vec<u8>, Vec<u8>, i32) {
             Fmt::F32 => split_sci(&format!("{:.8e}", f32::from_bits(bits as u32))),
             Fmt::F64 => split_sci(&format!("{:.16e}", f64::from_bits(bits))),
         },
+        3 => positional(render(fmt, bits, 0)),
+        4 => positional(render(fmt, bits, 1)),
         _ => {
             let d = oracle::exact(fmt, bits);
             if d.is_zero() {
@@ -52,9 +77,9 @@ pub fn render(fmt: Fmt, bits: u64, which: usize) -> (Vec<u8>, Vec<u8>, i32) {
 }
 
 fn check_value(fmt: Fmt, bits: u64, cfgs: &[usize], validate: bool, stats: &mut Stats, fp_salt: u64) -> Result<(), Failure> {
-    for which in 0..3 {
+    for which in 0..5 {
         let (int, frac, exp) = render(fmt, bits, which);
-        if validate && which < 2 {
+        if validate && which != 2 {
             // the rendering itself must identify x (a std formatting quirk must not become an alarm)
             if oracle::judge(fmt, bits, &int, &frac, exp as i64) != Verdict::Correct {
                 return Err(Failure::harness(
@@ -127,6 +152,8 @@ fn check_value(fmt: Fmt, bits: u64, cfgs: &[usize], validate: bool, stats: &mut 
     if fmt.is_subnormal(bits) {
         stats.count("x-subnormal");
     }
+    // one evaluation = one rendering parsed in all configurations (the runner counted one for the value)
+    stats.evaluations += 4;
     Ok(())
 }
 
@@ -135,7 +162,9 @@ pub fn run(ctx: &Ctx) -> i32 {
         "For a generated finite non-negative float x (classes: uniform bits = uniform over binades, subnormals, special \
          mantissas/exponents, integers, powers of ten, near powers of two, extremes, short decimals) three renderings \
          are produced: shortest (std {:e}), 9/17 significant digits (std {:.8e}/{:.16e}) - both validated by the oracle \
-         to identify x before use - and the exact decimal expansion (own Nat). Each is parsed in all 8 configurations \
+         to identify x before use - each in scientific layout (d.ddd, exponent) and in positional layout (all integer \
+         digits with their trailing zeros, or 0.000ddd; exponent 0 - what Display prints), and the exact decimal \
+         expansion (own Nat). Each is parsed in all 8 configurations \
          and must give x's bits. Distinct per (format, x, rendering); non-trivial if the rendering has > 15 digits or x \
          is subnormal or in the top binade. Thorough tier additionally enumerates f32 bit patterns.",
     );
